@@ -48,9 +48,9 @@ var c01Kinds = []c01Kind{
 	{T: decl.TFloat32, Vals: []string{"0.1", "1.00000005960464478", "16777217.000000001"}},
 	{T: decl.TPInts, Vals: []string{"3", "-4"}},
 	{T: decl.TCSV, Vals: []string{"a,b", "c"}},
-	{T: decl.TSink, Vals: []string{"val", "x"}}, // an Unmarshaler with a value receiver
-	{T: decl.TOnOffs, Vals: []string{"on", "off"}}, // a slice of a bool-kinded Unmarshaler: every element takes an argument
-	{T: decl.TInt, Base: "0", Vals: []string{"0644", "0x1F", "12"}}, // base inferred from the prefix
+	{T: decl.TSink, Vals: []string{"val", "x"}},                        // an Unmarshaler with a value receiver
+	{T: decl.TOnOffs, Vals: []string{"on", "off"}},                     // a slice of a bool-kinded Unmarshaler: every element takes an argument
+	{T: decl.TInt, Base: "0", Vals: []string{"0644", "0x1F", "12"}},    // base inferred from the prefix
 	{T: decl.TFuncS, Vals: []string{"val"}, Default: []string{"dflt"}}, // a callback with a default: called with it only when the option does not occur
 	// fields that hold something before the parse: an occurrence replaces the previous contents, no occurrence leaves them
 	{T: decl.TMapSI, Vals: []string{"k:1", "j:-3"}, Initial: map[string]int{"stale": 99, "k": 7}},
